@@ -241,8 +241,11 @@ macro_rules! c14_for_crate {
 
             /// combined configuration, presence pattern fixed by const parameters
             fn check_config<const P: bool, const I: bool, const S: bool, const N4: usize, const N6: usize>() {
+                check_config_on::<P, I, S, N4, N6>(any_endpoint_pair())
+            }
+
+            fn check_config_on<const P: bool, const I: bool, const S: bool, const N4: usize, const N6: usize>((a, b): (IpAddr, IpAddr)) {
                 let deny: bool = kani::any();
-                let (a, b) = any_endpoint_pair();
                 let s: u16 = kani::any();
                 let d: u16 = kani::any();
                 let mut cfg = FilterConfig::new()
@@ -318,6 +321,17 @@ macro_rules! c14_for_crate {
             #[kani::unwind(20)]
             pub fn c14_port_0022() {
                 check_port::<0, 0, 2, 2>()
+            }
+            // ---- combined ip + subnet (and all three) on mixed-family endpoint pairs ----
+            #[kani::proof]
+            #[kani::unwind(20)]
+            pub fn c14_cfgmix_011() {
+                check_config_on::<false, true, true, 1, 0>(any_endpoint_pair_mixed())
+            }
+            #[kani::proof]
+            #[kani::unwind(20)]
+            pub fn c14_cfgmix_111() {
+                check_config_on::<true, true, true, 1, 0>(any_endpoint_pair_mixed())
             }
             // ---- deeper list bounds (thorough tier) ----
             #[kani::proof]
